@@ -59,6 +59,9 @@ pub struct Menu {
     /// offer "the next apply on the leader fails" once
     #[serde(default)]
     pub fatal_sm: bool,
+    /// offer "the head responses of two links reach the leader before its next turn"
+    #[serde(default)]
+    pub resp_pairs: bool,
     /// what the explorer appends at the end of every path (see cluster_ext::closure)
     #[serde(default)]
     pub closure: Closure,
@@ -108,6 +111,7 @@ impl Default for Menu {
             joins: false,
             max_ticks: 0,
             fatal_sm: false,
+            resp_pairs: false,
             closure: Closure::None,
         }
     }
@@ -163,6 +167,17 @@ impl Menu {
             }
             if self.breaks && !dead && (nreq > 0 || nresp > 0) {
                 push(&mut out, Event::Break(link), 1);
+            }
+        }
+
+        if self.resp_pairs {
+            let ls: Vec<_> = c.links().into_iter().filter(|(_, _, nresp, dead)| *nresp > 0 && !*dead).map(|(l, _, _, _)| l).collect();
+            for i in 0..ls.len() {
+                for j in 0..ls.len() {
+                    if i != j && ls[i].from == ls[j].from {
+                        push(&mut out, Event::DeliverResp2(ls[i], ls[j]), 0);
+                    }
+                }
             }
         }
 
